@@ -7,7 +7,7 @@ from ..common import BookCase, book_obs, sig, run_apps, app
 THEOREMS = ['depth_exact', 'outcome_order_independent', 'only_depth_error', 'chain_shorter', 'chain_le', 'chain_of_reach', 'cyclic_fails', 'shallow_succeeds']
 LEVEL = 'proof'
 RULE = ('chains of every length N-2..N+2, chains that end in a recipe without ingredients (alone or shared by two recipes), cycles of length 1..4 reached through shallow and deep paths, DAGs with sharing, '
-        'N in 1..12; through the CLI every command that resolves the book (register, balance in its display modes, the reports, summary, csv database-resolved) with the limit from --maxdepth / HR_MAXDEPTH; both entry points repeated (runtime map order) and explicit visiting orders (all permutations for <= 4 recipes); '
+        'N in 1..12; through the CLI every command that resolves the book (register, balance in its display modes, the reports, summary, csv database-resolved) with the limit from --maxdepth / HR_MAXDEPTH / the configuration file; both entry points repeated (runtime map order) and explicit visiting orders (all permutations for <= 4 recipes); '
         'non-trivial = longest chain within 2 of N, or cyclic; distinct by (book, N)')
 ASSUMPTIONS = ["Go's map iteration order is sampled by repetition; explicit orders go through the resolver hook"]
 
@@ -15,6 +15,9 @@ ASSUMPTIONS = ["Go's map iteration order is sampled by repetition; explicit orde
 RESOLVING = [(['csv', 'database-resolved'], (), {}), (['csv', 'database-resolved'], (), {}), (['reg'], (), {}), (['reg'], (), {'singleElement': 'calories'}),
              (['bal'], (), {}), (['bal'], (), {'collapse': True}), (['bal'], (), {'collapseLast': True}), (['bal'], (), {'singleElement': 'calories'}),
              (['report', 'totals'], (), {}), (['report', 'unresolved'], (), {}), (['report', 'element-total'], ('calories',), {}), (['summary'], ('2021/01/24',), {})]
+
+
+COMBOS = [(c_, s_) for s_ in ('flag', 'env', 'cfg') for c_ in RESOLVING[1:]]
 
 
 def expect(book, n):
@@ -108,21 +111,35 @@ def run(ctx):
         ctx.sample({'book': c.describe()['book_file'][:400], 'N': c.max_depth, 'longest_chain': c.meta['height']})
     # through the CLI: --maxdepth / HR_MAXDEPTH / [Resolver] MaxDepth
     apps = []
-    for _ in range(150 if ctx.tier == 'quick' else 400):
+    for _ in range(330 if ctx.tier == "quick" else 660):
         n = g.r.randint(1, 12)
         length = max(0, n + g.r.choice([-1, 0, 0, 1]))
         book = g.chain_book(length, exact=True, cycle=g.r.choice([0, 0, 1, 2]) if length else 0)
         if len(spec.book_map(book)) != len(book):
             continue
         # every command that works with the resolved book refuses the same books, whatever else it is asked to do
-        path, args, sflags = g.r.choice(RESOLVING)
+        combo = COMBOS[len(apps) % len(COMBOS)]          # every command with every source of the limit, in turn
+        path, args, sflags = combo[0]
         first = book[0][0] if book else b'calories'
         files = {b'food.yaml': g.render_book(book), b'log.yaml': b'' if path == ['csv', 'database-resolved'] and g.r.random() < 0.5 else b'2021/01/24:\n  ' + first + b': 1\n'}
-        src = g.r.choice(['flag', 'env'])
-        c = app(path, files, args=args, s=sflags, g={'maxdepth': n} if src == 'flag' else {}, env={'maxdepth': n} if src == 'env' else {}, reps=4,
-                kind=' '.join(path + list(sflags)))
+        src = combo[1]
+        cfgd = {'where': 'flag', 'path': 'my.cfg', 'exists': True, 'entries': {'MaxDepth': n}} if src == 'cfg' else None
+        c = app(path, files, args=args, s=sflags, g={'maxdepth': n} if src == 'flag' else ({'config': 'my.cfg'} if src == 'cfg' else {}), env={'maxdepth': n} if src == 'env' else {},
+                cfg=cfgd, disk=cfgd is not None, reps=4, kind=' '.join(path + list(sflags)))
         c.meta.update({'want': expect(book, n), 'N': n})
         apps.append(c)
+    # ... and four fixed pairs (limit, chain) on either side of the limit and of the built-in default of 10, for every command and source
+    for (path, args, sflags), src in COMBOS:
+        for n, length in ((3, 3), (3, 2), (12, 11), (12, 12)):
+            book = g.chain_book(length, exact=True)
+            if len(spec.book_map(book)) != len(book):
+                continue
+            files = {b'food.yaml': g.render_book(book), b'log.yaml': b'2021/01/24:\n  ' + book[0][0] + b': 1\n'}
+            cfgd = {'where': 'flag', 'path': 'my.cfg', 'exists': True, 'entries': {'MaxDepth': n}} if src == 'cfg' else None
+            c = app(path, files, args=args, s=sflags, g={'maxdepth': n} if src == 'flag' else ({'config': 'my.cfg'} if src == 'cfg' else {}), env={'maxdepth': n} if src == 'env' else {},
+                    cfg=cfgd, disk=cfgd is not None, kind=' '.join(path + list(sflags)))
+            c.meta.update({'want': expect(book, n), 'N': n})
+            apps.append(c)
     impl2, model2 = run_apps(ctx, apps)
     for c in apps:
         i = impl2[c.id]
